@@ -14,10 +14,14 @@ sys.path.insert(0, "driver")
 import lib
 lib.build_harness()
 lib.regen_schema()
+lib.regen_consts()
 rc, out = lib.coq_make()
 open("build/coq-build.log", "w").write(out)
 if rc != 0:
-    print(out[-4000:]); sys.exit(1)
+    # a keep-going build: the checks hold a file that does not compile against the properties that rest on it (and say so);
+    # setup fails only when the model runner itself cannot be built
+    print(out[-4000:])
+    print("setup: the Coq development does not build completely: " + ", ".join(sorted(lib.failed_modules(out))))
 lib.build_model()
 print("setup ok")
 PY
